@@ -56,6 +56,8 @@ where
         node
     });
     node.created_in.add_node(node.clone());
+    #[cfg(cormacrelf_incremental_rs_verif)]
+    crate::verif_audit::register(&node);
     Incr { node }
 }
 
